@@ -1171,6 +1171,17 @@ class CallGraph:
                                 r = None
                             if r and r[0] == "func":
                                 edges.add(r[1].fq)
+            if isinstance(n, (ast.Return, ast.Assign, ast.AnnAssign)) and isinstance(getattr(n, "value", None), (ast.Name, ast.Attribute)) \
+                    and not (isinstance(n.value, ast.Name) and n.value.id in params):
+                # a tucan function handed back or kept under a name (`return reader_for_v3000`): whoever gets it may call it
+                try:
+                    r = self.repo.resolve_dotted(fi.module, n.value)
+                except (NameError, UnboundLocalError):
+                    raise
+                except Exception:
+                    r = None
+                if r and r[0] == "func":
+                    edges.add(r[1].fq)
             if isinstance(n, ast.Attribute) and isinstance(n.ctx, ast.Load):
                 # reading a property of a tucan class runs its getter
                 t = lt.type_of(n.value)
